@@ -6,6 +6,13 @@ import MtailVerif.Props.C22
 #print axioms MtailVerif.C22.graphite_shape
 #print axioms MtailVerif.C22.one_record_per_label_set
 #print axioms MtailVerif.C22.one_record_per_label_set_handlers
-#print axioms MtailVerif.C22.export_skeletons
 #print axioms MtailVerif.C22.record_name_determines_label_set
 #print axioms MtailVerif.C22.distinct_label_sets_distinct_names
+#print axioms MtailVerif.C22.export_skeletons
+#print axioms MtailVerif.C22.f_metrics_store_skeletons
+#print axioms MtailVerif.C22.f_exporter_export_skeletons
+#print axioms MtailVerif.C22.f_exporter_graphite_skeletons
+#print axioms MtailVerif.C22.f_exporter_varz_skeletons
+#print axioms MtailVerif.C22.f_exporter_json_skeletons
+#print axioms MtailVerif.C22.f_exporter_statsd_skeletons
+#print axioms MtailVerif.C22.f_exporter_collectd_skeletons
